@@ -1,6 +1,7 @@
 import Rbp.Model.Driver
 import Rbp.Proofs.Driver
 import Rbp.Proofs.RunSpec
+import Rbp.Proofs.Prefix
 /-!
 # C02 — exactly the blocks of heights start..min(end,tip) are delivered, once, ascending
 -/
@@ -192,5 +193,34 @@ theorem range_run_is_slice_opreturn (o w : Run.Opts) (key : Option W.Bytes) (kvs
     exact this
   rw [hsplit, List.map_append, List.map_append]
   simp [CB.opreturnLines, List.flatMap_append, eb]
+
+
+/-- **a range above the tip.**  When `--start` lies above `min(--end, tip)` nothing is delivered: the run completes with exit
+    status 0, no block reaches the callback, and csvdump's four files exist under the names `…-start-(start-1).csv` with no rows
+    (so exit status 0 still means final-named files and no tmp file, C10) -/
+theorem empty_range_run (o : Run.Opts) (key : Option W.Bytes) (kvs : List (W.Bytes × W.Bytes)) (files : List Run.BlkFile)
+    (coin : Run.Coin) (ld : Run.Loaded) (hcoin : Run.coinOf o.coin = some coin) (hld : Run.loadIndex o kvs = .ok ld)
+    (hfiles : (files.filterMap fun f => (Run.parseBlkIndex f.name).map fun n => (n, f)).isEmpty = false)
+    (hkey : key ≠ some []) (habove : ld.maxH < o.start) (hcb : o.callback = "csvdump") :
+    (Run.run o key kvs files).exit = 0 ∧ (Run.run o key kvs files).delivered = [] ∧
+    (Run.run o key kvs files).files = Run.csvFiles coin.version o.start (o.start - 1) [] := by
+  have hn : ld.maxH + 1 - o.start = 0 := by omega
+  unfold Run.run
+  simp only [hcoin, hld, hfiles, Bool.false_eq_true, if_false, hn]
+  cases key with
+  | none => simp [Run.driveLoop, Run.callbackPanics, Run.callbackOut, hcb]
+  | some kk =>
+    cases kk with
+    | nil => exact absurd rfl hkey
+    | cons a l => simp [Run.driveLoop, Run.callbackPanics, Run.callbackOut, hcb]
+
+
+/-- **every run, no hypothesis on the directory.**  Whatever the options, key, index content and blk files are — readable or not,
+    consistent or not — the heights handed to the callback are `start, start+1, …, start+k-1` for some `k` not exceeding the size of
+    the requested range: ascending, each exactly once, none below `--start`, none above `min(--end, tip)` -/
+theorem every_run_delivers_an_initial_segment (o : Run.Opts) (key : Option W.Bytes) (kvs : List (W.Bytes × W.Bytes)) (files : List Run.BlkFile) :
+    ∃ k, (Run.run o key kvs files).delivered = List.range' o.start k ∧
+      (∀ ld, Run.loadIndex o kvs = .ok ld → k ≤ ld.maxH + 1 - o.start) :=
+  Run.run_delivers_prefix o key kvs files
 
 end Rbp.Props.C02
